@@ -426,6 +426,152 @@ theorem C08_slo_all_meets_spec (truthy : α → Bool) (preferred : List α) (exp
         refine ⟨?_, C08_slo_all_meets_spec truthy preferred expected rest cs hcs⟩
         exact C08_slo_meets_spec truthy eps preferred expected
 
+
+/-! ## Round 5 -/
+
+/-- `response_args` for EVERY request class on either kind of entity meets the specification. -/
+theorem C08_response_args_kind_meets_spec (truthy : α → Bool) (soap empty : α) (selfIsSp : Bool) (kind : ReqKind)
+    (lookup : Bool → Svc → Option (List (Endpoint α))) (arg : List α) (reqBinding : Option α)
+    (preferred : Svc → List α) (url index : Option α) :
+    specArgsK truthy soap empty selfIsSp kind lookup arg reqBinding preferred url index
+      (responseArgsK truthy soap empty selfIsSp kind lookup arg reqBinding preferred url index) = true := by
+  have key : ∀ s, specArgs truthy soap empty (lookup (kindDescrIdp selfIsSp kind) s) arg reqBinding (preferred s) url index
+      (if arg = [soap] then Pick.ok soap empty
+       else pickBinding truthy (lookup (kindDescrIdp selfIsSp kind) s) (effBindings truthy arg reqBinding (preferred s)) url index) = true := by
+    intro s
+    have := C08_response_args_meets_spec truthy soap empty (lookup (kindDescrIdp selfIsSp kind) s) arg reqBinding (preferred s) url index
+    unfold responseArgs at this
+    exact this
+  cases kind <;> unfold specArgsK responseArgsK <;> simp only [kindService] <;>
+    first
+    | (have := key Svc.acs; by_cases h : arg = [soap] <;> simp_all)
+    | (have := key Svc.slo; by_cases h : arg = [soap] <;> simp_all)
+    | (have := key Svc.attrCs; by_cases h : arg = [soap] <;> simp_all)
+    | (have := key Svc.mni; by_cases h : arg = [soap] <;> simp_all)
+    | (by_cases h : arg = [soap] <;> simp_all)
+
+/-- Whatever the request class and the entity's own role: a destination other than the SOAP back-channel answer is
+    published in the requester's metadata for the return service of that request class, under the peer descriptor. -/
+theorem C08_response_args_kind_registered (truthy : α → Bool) (soap empty : α) (selfIsSp : Bool) (kind : ReqKind)
+    (lookup : Bool → Svc → Option (List (Endpoint α))) (arg : List α) (reqBinding : Option α)
+    (preferred : Svc → List α) (url index : Option α) (b d : α) (hsoap : arg ≠ [soap])
+    (h : responseArgsK truthy soap empty selfIsSp kind lookup arg reqBinding preferred url index = some (.ok b d)) :
+    ∃ s, kindService kind = some s ∧ ∃ l, lookup (kindDescrIdp selfIsSp kind) s = some l ∧
+      ∃ e ∈ l, e.binding = b ∧ (d = e.location ∨ e.responseLocation = some d) := by
+  unfold responseArgsK at h
+  cases kind <;> simp only [if_neg hsoap, kindService] at h <;>
+    first
+    | (cases h; done)
+    | (simp only [Option.some.injEq] at h
+       exact ⟨_, rfl, (C08_pick_registered truthy _ _ url index b d h).2⟩)
+
+/-- A request class without return service is never answered with a destination (other than the back channel). -/
+theorem C08_no_service_no_destination (truthy : α → Bool) (soap empty : α) (selfIsSp : Bool) (kind : ReqKind)
+    (lookup : Bool → Svc → Option (List (Endpoint α))) (arg : List α) (reqBinding : Option α)
+    (preferred : Svc → List α) (url index : Option α) (b d : α) (hk : kindService kind = none)
+    (h : responseArgsK truthy soap empty selfIsSp kind lookup arg reqBinding preferred url index = some (.ok b d)) :
+    arg = [soap] ∧ b = soap ∧ d = empty := by
+  unfold responseArgsK at h
+  cases kind <;> simp only [kindService] at hk h <;> (try cases hk) <;>
+    (by_cases hs : arg = [soap] <;> simp_all)
+
+/-- `pick_binding` without descriptor type: the pair chosen is published by the peer under the descriptor opposite to
+    the entity's own role. -/
+theorem C08_pick_direct_registered (truthy : α → Bool) (selfIsSp : Bool) (s : Svc)
+    (lookup : Bool → Svc → Option (List (Endpoint α))) (arg : List α) (preferred : Svc → List α) (b d : α)
+    (h : pickDirect truthy selfIsSp s lookup arg preferred = .ok b d) :
+    ∃ l, lookup selfIsSp s = some l ∧ ∃ e ∈ l, e.binding = b ∧ (d = e.location ∨ e.responseLocation = some d) :=
+  (C08_pick_registered truthy _ _ none none b d h).2
+
+/-- `_sso_location` without entity id: a location is returned only when the metadata holds exactly one identity
+    provider, and it is a single-sign-on location of that provider for the binding. -/
+theorem C08_sso_any_registered (truthy : α → Bool) (entity : Option α) (named : Option (List (Endpoint α)))
+    (idps : List (List (Endpoint α))) (b d : α) (hn : entity.filter truthy = none)
+    (h : ssoLocationAny truthy entity named idps b = some d) :
+    ∃ l, idps = [l] ∧ ∃ e ∈ l, e.binding = b ∧ e.location = d := by
+  unfold ssoLocationAny at h
+  rw [hn] at h
+  simp only at h
+  split at h
+  next l =>
+    obtain ⟨l', hl', e, he, hb, hd⟩ := C08_sso_location (some l) b d h
+    cases hl'
+    exact ⟨l, rfl, e, he, hb, hd⟩
+  next => cases h
+
+theorem C08_sso_any_meets_spec (truthy : α → Bool) (entity : Option α) (named : Option (List (Endpoint α)))
+    (idps : List (List (Endpoint α))) (b : α) :
+    specLocAny truthy entity named idps b (ssoLocationAny truthy entity named idps b) = true := by
+  unfold specLocAny
+  cases hn : entity.filter truthy with
+  | some u =>
+    simp only
+    unfold ssoLocationAny
+    rw [hn]
+    exact C08_sso_meets_spec named b
+  | none =>
+    simp only
+    cases h : ssoLocationAny truthy entity named idps b with
+    | none => rfl
+    | some d =>
+      obtain ⟨l, hl, e, he, hb, hd⟩ := C08_sso_any_registered truthy entity named idps b d hn h
+      subst hl
+      simp only
+      unfold specLoc
+      simp only
+      exact List.any_eq_true.mpr ⟨e, he, by simp [hb, hd]⟩
+
+/-- Histories on one long-lived entity (changes of the metadata source, reloads that succeed or fail, look-ups, in any
+    order and number): if single answers meet `spec`, every answer of the history meets it for the metadata installed
+    by the last successful reload. -/
+theorem C08_history_meets_spec {μ ρ ο : Type} (answer : μ → ρ → ο) (spec : μ → ρ → ο → Bool)
+    (hs : ∀ m q, spec m q (answer m q) = true) :
+    ∀ (steps : List (HStep μ ρ)) (disk : Option μ) (loaded : μ),
+      specHist spec disk loaded steps (runHist answer disk loaded steps) = true
+  | [], d, l => by cases d <;> simp [runHist, specHist]
+  | .write m :: r, d, l => by
+    have ih := C08_history_meets_spec answer spec hs r m l
+    cases d <;> simpa [runHist, specHist] using ih
+  | .reload :: r, none, l => by
+    have ih := C08_history_meets_spec answer spec hs r none l
+    simpa [runHist, specHist] using ih
+  | .reload :: r, some m, l => by
+    have ih := C08_history_meets_spec answer spec hs r (some m) m
+    simpa [runHist, specHist] using ih
+  | .ask q :: r, d, l => by
+    have ih := C08_history_meets_spec answer spec hs r d l
+    cases d <;> simp [runHist, specHist, hs, ih]
+
+/-- No memory of older metadata: whatever happened before (look-ups included), once the source holds `m` and is
+    reloaded, look-ups are answered from `m` alone. -/
+theorem C08_history_reload_current {μ ρ ο : Type} (answer : μ → ρ → ο) (m : μ) (rest : List (HStep μ ρ)) :
+    ∀ (pre : List (HStep μ ρ)) (disk : Option μ) (loaded : μ),
+      (runHist answer disk loaded (pre ++ .write (some m) :: .reload :: rest)).drop (runHist answer disk loaded pre).length
+        = .reloaded true :: runHist answer (some m) m rest
+  | [], d, l => by cases d <;> simp [runHist]
+  | .write m' :: r, d, l => by
+    have ih := C08_history_reload_current answer m rest r m' l
+    cases d <;> simpa [runHist] using ih
+  | .reload :: r, none, l => by
+    have ih := C08_history_reload_current answer m rest r none l
+    simpa [runHist] using ih
+  | .reload :: r, some m', l => by
+    have ih := C08_history_reload_current answer m rest r (some m') m'
+    simpa [runHist] using ih
+  | .ask q :: r, d, l => by
+    have ih := C08_history_reload_current answer m rest r d l
+    cases d <;> simpa [runHist] using ih
+
+/-- Histories of `response_args` look-ups: a destination returned at any point of any history is published in the
+    metadata version installed by the last successful reload. -/
+theorem C08_history_response_args (truthy : α → Bool) (soap empty : α) {μ : Type}
+    (eps : μ → Option (List (Endpoint α)))
+    (steps : List (HStep μ (List α × Option α × List α × Option α × Option α))) (disk : Option μ) (loaded : μ) :
+    specHist (fun m q o => specArgs truthy soap empty (eps m) q.1 q.2.1 q.2.2.1 q.2.2.2.1 q.2.2.2.2 o) disk loaded steps
+      (runHist (fun m q => responseArgs truthy soap empty (eps m) q.1 q.2.1 q.2.2.1 q.2.2.2.1 q.2.2.2.2) disk loaded steps) = true :=
+  C08_history_meets_spec _ _ (fun m q => C08_response_args_meets_spec truthy soap empty (eps m) q.1 q.2.1 q.2.2.1 q.2.2.2.1 q.2.2.2.2)
+    steps disk loaded
+
 /-! Non-vacuity: concrete instances meeting the hypotheses. -/
 
 private def ep (b l : String) (i : String) : Endpoint String := { binding := b, location := l, index := some i }
@@ -441,5 +587,21 @@ example : pickBinding t (some [ep "post" "https://sp/acs" "0"]) ["post"] (some "
     = .ok "post" "https://sp/acs" := by decide
 example : verifyReturn (fun l u => l.isPrefixOf u) [[1, 2, 3]] [1, 2, 3, 4, 5] = true := by decide
 example : verifyReturn (fun l u => l.isPrefixOf u) [[1, 2, 3]] [9, 1, 2, 3] = false := by decide
+
+-- round 5
+private def lk : Bool → Svc → Option (List (Endpoint String))
+  | false, .mni => some [ep "post" "https://sp/mni" "0"]
+  | true, .slo => some [ep "redirect" "https://idp/slo" "0"]
+  | _, _ => none
+example : responseArgsK t "soap" "" false .manageNameId lk ["post"] none (fun _ => []) none none
+    = some (.ok "post" "https://sp/mni") := by decide
+example : responseArgsK t "soap" "" true .logout lk ["redirect"] none (fun _ => []) none none
+    = some (.ok "redirect" "https://idp/slo") := by decide
+example : responseArgsK t "soap" "" false .soapOnly lk ["post"] none (fun _ => []) none none = none := by decide
+example : ssoLocationAny t none none [[ep "post" "https://idp/sso" "0"]] "post" = some "https://idp/sso" := by decide
+example : ssoLocationAny t none none [[ep "post" "https://idp/sso" "0"], [ep "post" "https://idp2/sso" "0"]] "post" = none := by
+  decide
+example : runHist (fun (m : Nat) (q : Nat) => m + q) (some 1) 1 [.ask 0, .write (some 5), .ask 0, .reload, .ask 0, .write none, .reload, .ask 0]
+    = [.ans 1, .ans 1, .reloaded true, .ans 5, .reloaded false, .ans 5] := by decide
 
 end C08
